@@ -9,6 +9,8 @@ mod rule;
 mod subrule;
 mod error;
 mod alias;
+#[cfg(feature = "verif")]
+pub mod verif;
 
 pub use seg::*;
 pub use place::*;
@@ -91,6 +93,7 @@ lazy_static! {
     static ref CARDINALS_VEC: Vec<String> = {
         // HashMap iteration order differs per process; sort so that rendering is deterministic
         let mut keys: Vec<String> = CARDINALS_MAP.iter().map(|(k,_)| k.clone()).collect();
+        #[cfg(feature = "verif")] crate::verif::permute_iteration_order(&mut keys);
         keys.sort();
         keys
     };
